@@ -347,6 +347,13 @@ async def process_resource_causes(
     # falsely suggesting that it is still blocked and requires unblocking. No, it is not, does not.
     delays = list(spawning_delays) + list(changing_delays)
     deleted = raw_event['type'] == 'DELETED'
+
+    # Similarly, while something of ours is still pending on the object being deleted (e.g. daemons
+    # being stopped), a removal of the finalizer carried over from the previous cycle is premature.
+    if deletion_is_ongoing and delays:
+        patch.fns[:] = [fn for fn in patch.fns if not (
+            isinstance(fn, functools.partial) and fn.func is finalizers.allow_deletion)]
+
     if not deleted and deletion_is_ongoing and deletion_is_blocked and not delays:
         local_logger.debug("Removing the finalizer, thus allowing the actual deletion.")
         patch.fns.append(functools.partial(finalizers.allow_deletion, finalizer=finalizer))
